@@ -64,6 +64,28 @@ def allowed_class(E: Escapes, c: str) -> bool:
     return c == 'RecognitionError' or E.H.is_sub(c, 'YAMLError')
 
 
+def _model_error_elsewhere(o) -> Optional[str]:
+    """The `__init__ without self` model error, wherever the check lives: a RuntimeError raised under nothing but
+    `'self' not in <the argument names of the class's __init__>` depends on the registered class only, not on the document."""
+    n = o.node
+    if not isinstance(n, ast.Raise) or n.exc is None:
+        return None
+    f = fn_of(o.fi)
+    # guards that only say "an earlier check did not raise" do not make the error depend on anything new
+    gs = [(x.ast, x.pol) for x in f.cfg.guard_nodes(f.nid(n)) if not S._other_branch_raises(x.ast, x.pol)]
+    if len(gs) != 1:
+        return None
+    g, pol = gs[0]
+    t, p = G.canon_atom(g, pol)
+    if not (isinstance(g, ast.Compare) and len(g.ops) == 1 and isinstance(g.ops[0], (ast.In, ast.NotIn)) and not p
+            and const_str(g.left) == 'self'):
+        return None
+    src = f.alpha.text(g.comparators[0])
+    if 'getfullargspec(' in src and src.endswith('.args') and 'node' not in src:
+        return 'model error: __init__ without self (depends on the class only)'
+    return None
+
+
 def r08_1_explicit(ctx):
     P = ctx.P
     E = escapes(P)
@@ -80,6 +102,8 @@ def r08_1_explicit(ctx):
                 r.ok('%s may raise %s (from %s)' % (root.split(':')[1], c, fkey.split(':')[1]))
             elif k in MODEL_ERRORS:
                 r.ok('%s: %s from %s - exempt: %s' % (root.split(':')[1], c, fkey.split(':')[1], MODEL_ERRORS[k]))
+            elif _model_error_elsewhere(o):
+                r.ok('%s: %s from %s - exempt: %s' % (root.split(':')[1], c, fkey.split(':')[1], _model_error_elsewhere(o)))
             else:
                 r.fail('%s@%s' % (k, root.split(':')[1]), o.fi.loc(o.node),
                        '%s raised in %s can escape %s (call chain: %s): bad input surfaces as %s instead of RecognitionError'
